@@ -33,6 +33,14 @@ impl<'a> vstd::std_specs::iter::IteratorSpecImpl for HIter<'a> {
     uninterp spec fn decrease(&self) -> Option<nat>;
     uninterp spec fn peek(&self, i: int) -> Option<(&'a HeaderName, &'a HeaderValue)>;
 }
+impl<'a> HIter<'a> {
+    /// N9: `Iterator::count` (std, no vstd spec): ASSUMED to return the number of items the iterator still yields
+    #[verifier::external_body]
+    pub fn count(self) -> (n: usize)
+        requires self.obeys_prophetic_iter_laws()
+        ensures n == self.remaining().len()
+    { unimplemented!() }
+}
 /// the items an effective-header iterator still has to yield, as model fields
 pub open spec fn items_are<'a>(items: Seq<(&'a HeaderName, &'a HeaderValue)>, hs: Seq<Hdr>) -> bool {
     items.len() == hs.len() && forall|i: int| 0 <= i < hs.len() ==> (#[trigger] items[i]).0.view() == hs[i].name && items[i].1.view() == hs[i].value
@@ -139,27 +147,54 @@ SET_HEADER_SIG = '''pub fn set_header<K, V>(&mut self, name: K, value: V) -> Res
         <HeaderName as TryFrom<K>>::Error: Into<http::Error>,
         HeaderValue: TryFrom<V>,
         <HeaderValue as TryFrom<V>>::Error: Into<http::Error>,'''
-FN('set_header', props=['C16', 'C02'], ret='r', trusted=True,
+RAW('''
+    // N9: the generic conversion expression `<HeaderName as TryFrom<K>>::try_from(k).map_err(Into::into).map_err(|e| Error::BadHeader(e.to_string()))`
+    // (trait-path function values, Display of http::Error) as a stub with an ASSUMED contract over the uninterpreted key_bytes / val_bytes
+    #[verifier::external_body]
+    pub fn header_name_from<K>(k: K) -> (r: Result<HeaderName, Error>)
+        where HeaderName: TryFrom<K>, <HeaderName as TryFrom<K>>::Error: Into<crate::http::Error>
+        ensures match key_bytes::<K>(k) { Some(n) => r is Ok && r->Ok_0.view() == n, None => r is Err && r->Err_0 is BadHeader }
+    { unimplemented!() }
+    #[verifier::external_body]
+    pub fn header_value_from<V>(v: V) -> (r: Result<HeaderValue, Error>)
+        where HeaderValue: TryFrom<V>, <HeaderValue as TryFrom<V>>::Error: Into<crate::http::Error>
+        ensures match val_bytes::<V>(v) { Some(n) => r is Ok && r->Ok_0.view() == n, None => r is Err && r->Err_0 is BadHeader }
+    { unimplemented!() }
+''')
+FN('set_header', props=['C16', 'C02'], ret='r',
    requires=[('C12.added_header_capacity', 'old(self).headers.view().len() < MAX_EXTRA_HEADERS')],
-   ensures=[('assumed.set_header', '''old(self).same_but_added(final(self)) && match (key_bytes::<K>(name), val_bytes::<V>(value)) {
+   ensures=[('C16.set_header_appends', '''old(self).same_but_added(final(self)) && match (key_bytes::<K>(name), val_bytes::<V>(value)) {
             (Some(n), Some(v)) => r is Ok && final(self).added() == old(self).added().push(Hdr { name: n, value: v }) && final(self).headers.view().len() == old(self).headers.view().len() + 1,
             _ => r is Err && r->Err_0 is BadHeader && final(self).headers.view() == old(self).headers.view() }''')],
    rewrites=[('N8', '<HeaderName as TryFrom<K>>::Error: Into<http::Error>,', '<HeaderName as TryFrom<K>>::Error: Into<crate::http::Error>,'),
-             ('N8', '<HeaderValue as TryFrom<V>>::Error: Into<http::Error>,', '<HeaderValue as TryFrom<V>>::Error: Into<crate::http::Error>,')])
-FN('unset_header', props=['C13', 'C16'], ret='r', trusted=True,
+             ('N8', '<HeaderValue as TryFrom<V>>::Error: Into<http::Error>,', '<HeaderValue as TryFrom<V>>::Error: Into<crate::http::Error>,'),
+             ('N9', '''<HeaderName as TryFrom<K>>::try_from(name)
+            .map_err(Into::into)
+            .map_err(|e| Error::BadHeader(e.to_string()))?''', 'Self::header_name_from::<K>(name)?'),
+             ('N9', '''<HeaderValue as TryFrom<V>>::try_from(value)
+            .map_err(Into::into)
+            .map_err(|e| Error::BadHeader(e.to_string()))?''', 'Self::header_value_from::<V>(value)?')],
+   after=[('self.headers.push((name, value));', '''proof {
+            assert(final(self).added() =~= old(self).added().push(hdr_of((name, value))));
+        }''')] if False else [],
+   )
+FN('unset_header', props=['C13', 'C16'], ret='r',
    requires=[('C12.unset_capacity', 'old(self).unset.view().len() < 4')],
-   ensures=[('assumed.unset_header', '''final(self).request == old(self).request && final(self).uri == old(self).uri && final(self).headers.view() == old(self).headers.view() && match key_bytes::<K>(name) {
+   ensures=[('C13/C16.unset_header_appends', '''final(self).request == old(self).request && final(self).uri == old(self).uri && final(self).headers.view() == old(self).headers.view() && match key_bytes::<K>(name) {
             Some(n) => r is Ok && final(self).unset_names() == old(self).unset_names().push(n) && final(self).unset.view().len() == old(self).unset.view().len() + 1,
             None => r is Err && final(self).unset.view() == old(self).unset.view() }''')],
-   rewrites=[('N8', '<HeaderName as TryFrom<K>>::Error: Into<http::Error>,', '<HeaderName as TryFrom<K>>::Error: Into<crate::http::Error>,')])
+   rewrites=[('N8', '<HeaderName as TryFrom<K>>::Error: Into<http::Error>,', '<HeaderName as TryFrom<K>>::Error: Into<crate::http::Error>,'),
+             ('N9', '''<HeaderName as TryFrom<K>>::try_from(name)
+            .map_err(Into::into)
+            .map_err(|e| Error::BadHeader(e.to_string()))?''', 'Self::header_name_from::<K>(name)?')])
 
 FN('original_request_headers', props=['C09'], ret='r', ensures=[('aux.original_request_headers', '*r == self.request.spec_headers()')])
 
 FN('headers', props=['C02', 'C16', 'C13'], ret='it', trusted=True,
    ensures=[('assumed.headers_yields_effective', 'it.obeys_prophetic_iter_laws() && it.decrease() is Some && items_are(it.remaining(), self.eff())')],
    rewrites=[('N9', 'impl Iterator<Item = (&HeaderName, &HeaderValue)>', "HIter<'_>")])
-FN('headers_len', props=['C02', 'C16'], ret='n', trusted=True,
-   ensures=[('assumed.headers_len', 'n == self.eff().len()')])
+FN('headers_len', props=['C02', 'C16'], ret='n',
+   ensures=[('C02/C16.headers_len_counts_the_effective_headers', 'n == self.eff().len()')])
 
 FN('method', props=['C15', 'C17'], ret='r', ensures=[('aux.AmendedRequest.method', '*r == self.request.spec_method()')])
 FN('version', props=['C17'], ret='r', ensures=[('aux.AmendedRequest.version', 'r == self.request.spec_version()')])
